@@ -17,11 +17,20 @@ FN = ('fun c : nat * list sop => let \'(m, ops) := c in '
       'let sh := fun v : list N * bool * N => let \'(l, r, x) := v in show_list show_N "," l ++ "/" ++ show_bool r ++ "/" ++ show_N x in '
       '(match trace (init m) ops with None => "PANIC" | Some t => show_list sh "|" t end) ++ "#" ++ show_list sh "|" (strace m sinit ops)')
 
+# scenarios with W<k> (a session blocked in a reply write) need the repo fix "a server session blocked in a reply
+# write ignored eviction and server shutdown"; set to False to leave them out
+WRITE_STALL_OPS = True
+
 FIXED = [
     (2, 'C C C G1 R2:7 C S C'), (0, 'C C X0 C H'), (1, 'C R0:5 D C R0:9 R1:11'), (0, 'C C C C'), (1, 'C C C C'),
     (2, 'C C C C'), (3, 'C C C C C C'), (3, 'C C C X1 C C R0:3 R2:4 R4:5'), (2, 'C C G0 C C'), (2, 'C C X1 C C'),
     (3, 'C C C D G1 D C C S'), (2, 'C C H C'), (2, 'C C S R0:9 C'), (1, 'C G0 C X1 C'), (3, 'C C C C R0:1 R1:2 C R1:3 R2:4'),
     (2, 'S C'), (2, 'H C'), (3, 'C X0 C X1 C X2 C'), (2, 'C C C R0:8 G0 X0 R1:9'),
+    # W<k>: client k pipelines requests without ever reading, so that its session blocks in a reply write
+    (1, 'C W0 C'), (2, 'C W0 S'), (1, 'C W0 H'), (2, 'C C W0 R1:3 C R2:4'), (2, 'C W0 X0 C C'),
+    # before the fix the blocked session never drained its 8-slot command queue: the 9th decode-level command
+    # blocked ServerTask::apply_command, i.e. the accept loop - no further connection served, no shutdown possible
+    (2, 'C W0 D D D D D D D D D D C R1:5 S'),
 ]
 
 
@@ -73,8 +82,15 @@ def gen_script(r):
     mx = r.choice([0, 1, 1, 2, 2, 2, 3, 3])
     n = r.choice([3, 5, 7, 9, 11, 13])
     ops, conns, stopped = [], 0, False
+    flooded = set()
     for _ in range(n):
         w = r.random()
+        if conns and not stopped and r.random() < 0.02:
+            k = r.randrange(conns)
+            if k not in flooded:
+                ops.append(f'W{k}')
+                flooded.add(k)
+                continue
         if conns == 0 or (w < 0.42 and conns < 6):
             if conns < 6:
                 ops.append('C')
@@ -83,7 +99,9 @@ def gen_script(r):
         k = r.randrange(conns) if conns else 0
         if r.random() < 0.5 and conns:
             k = max(0, conns - 1 - r.randrange(min(conns, 3)))   # bias towards recent (still open) connections
-        if w < 0.55:
+        if k in flooded and w < 0.81 and not (0.55 <= w < 0.68):
+            ops.append('D')           # a flooded connection can only be closed by its client
+        elif w < 0.55:
             ops.append(f'R{k}:{r.randrange(1, 65536)}')
         elif w < 0.68:
             ops.append(f'X{k}')
@@ -136,6 +154,8 @@ def to_coq(c):
         elif code == 'R':
             k, v = rest.split(':')
             out.append(f'Req {k} {v}')
+        elif code == 'W':
+            out.append(f'Flood {rest}')
         elif code == 'D':
             out.append('SetDecode')
         elif code == 'S':
@@ -250,6 +270,8 @@ def run(ctx):
             exhaustive_part = len(ex)
             cases += ex
         ctx.coverage['exhaustive_scripts_of_length_5'] = exhaustive_part
+    if not WRITE_STALL_OPS:
+        cases = [c for c in cases if 'W' not in c[1]]
     impl, both = evaluate(ctx, cases)
     suspects = [k for k, (i, b) in enumerate(zip(impl, both)) if i != b.split('#')[0] or i != b.split('#')[1]]
     retried = len(suspects)
@@ -278,7 +300,7 @@ def run(ctx):
                 ctx.violation('model-differs-from-impl', f'max_sessions={c[0]} script "{c[1]}"', {'cases': [list(c)], 'impl': i, 'model': model, 'spec': spec},
                               no_failing_input=True)
     ctx.oblige('correspondence:server-sessions', n_spec == 0 and n_model == 0, f'{n_model} model / {n_spec} spec mismatches in {len(cases)} scenarios')
-    classes = {'tls_server': 0, 'tls_silent_peer_evicted': 0, 'tls_silent_peer_at_shutdown': 0, 'max0': 0, 'max1': 0, 'max2': 0, 'max3': 0, 'with_eviction': 0, 'with_garbage': 0, 'with_client_close': 0, 'with_request': 0,
+    classes = {'with_blocked_reply_write': 0, 'tls_server': 0, 'tls_silent_peer_evicted': 0, 'tls_silent_peer_at_shutdown': 0, 'max0': 0, 'max1': 0, 'max2': 0, 'max3': 0, 'with_eviction': 0, 'with_garbage': 0, 'with_client_close': 0, 'with_request': 0,
                'with_decode': 0, 'with_shutdown': 0, 'with_handle_drop': 0, 'connect_after_stop': 0, 'three_open_at_once': 0}
     for c, b in zip(cases, both):
         spec = b.split('#')[1].split('|')
@@ -304,6 +326,7 @@ def run(ctx):
         evict = any(op == 'C' and k > 0 and opens[k] <= opens[k - 1] and spec[k].split('/')[1] == '1' for k, op in enumerate(ops))
         classes['with_eviction'] += evict
         classes['with_garbage'] += any(o[0] == 'G' for o in ops)
+        classes['with_blocked_reply_write'] += any(o[0] == 'W' for o in ops)
         classes['with_client_close'] += any(o[0] == 'X' for o in ops)
         classes['with_request'] += any(o[0] == 'R' for o in ops)
         classes['with_decode'] += 'D' in ops
@@ -313,12 +336,12 @@ def run(ctx):
         classes['connect_after_stop'] += 'C' in ops[stop_at:]
         classes['three_open_at_once'] += bool(opens) and max(opens) >= 3
     if not ctx.replay:
-        need = ['tls_server', 'tls_silent_peer_evicted', 'tls_silent_peer_at_shutdown', 'with_eviction', 'with_garbage', 'with_client_close', 'with_shutdown', 'with_handle_drop', 'connect_after_stop', 'max0', 'three_open_at_once']
+        need = (['with_blocked_reply_write'] if WRITE_STALL_OPS else []) + ['tls_server', 'tls_silent_peer_evicted', 'tls_silent_peer_at_shutdown', 'with_eviction', 'with_garbage', 'with_client_close', 'with_shutdown', 'with_handle_drop', 'connect_after_stop', 'max0', 'three_open_at_once']
         ctx.oblige('generator-reaches-expected-classes', all(classes[k] >= 5 for k in need), str(classes))
     ctx.coverage.update({
         'evaluations': len(cases),
         'distinct_nontrivial': len(set(c for c, b in zip(cases, both) if c[1].count('C') + c[1].count('T') >= 2 and len(c[1].split()) >= 3)),
-        'rule': 'scenario = (plain TCP server or TLS server [C = rodbus TLS client channel, T = peer that connects and never starts the handshake], max_sessions in 0..3, script over C=connect X<k>=client k closes G<k>=garbage on k R<k>:<v>=write v on k D=set decode level S=shutdown H=drop handle), <= 6 connections, <= 13 ops, from a seeded PRNG after a fixed list; every op is followed by a probe of all connections; non-trivial = at least two connects and three ops; distinct by value',
+        'rule': 'scenario = (plain TCP server or TLS server [C = rodbus TLS client channel, T = peer that connects and never starts the handshake], max_sessions in 0..3, script over C=connect T=silent connect X<k>=client k closes G<k>=garbage on k R<k>:<v>=write v on k W<k>=client k pipelines requests and never reads (session blocked in a reply write) D=set decode level S=shutdown H=drop handle), <= 6 connections, <= 13 ops, from a seeded PRNG after a fixed list; every op is followed by a probe of all connections; non-trivial = at least two connects and three ops; distinct by value',
         'samples': [list(c) + [i] for c, i in list(zip(cases, impl))[:5]],
         'input_classes': classes,
         'probes': sum(len(c[1].split()) for c in cases),
